@@ -4,7 +4,7 @@ CONSTANTS
   GeoSets = {{1}}
   PolGeoSets = {{1}}
   McMixed = {TRUE}
-  McMoreSel = {}
+  McMoreSel = FALSE
   Kinds = {0, 3}
   CostBase = 3
   Den = 1
